@@ -77,7 +77,13 @@ pub fn run(tier: Tier) -> i32 {
     let ctx = Ctx::new("C06", tier, "model_checking");
     let depth = tier.pick(2, 3);
     let st = starts();
-    let r = bfs(&ctx, &C06, &st, depth);
+    let mut r = bfs(&ctx, &C06, &st, depth);
+    let tiny = tiny_starts();
+    let rt = bfs(&ctx, &C06, &tiny, depth + 1);
+    r.stats = r.stats.merge(rt.stats);
+    r.states += rt.states;
+    r.transitions += rt.transitions;
+    r.levels.extend(rt.levels);
     if let Err(e) = require_nonzero(&r.stats, &["calls_ok", "calls_refused", "refusals_checked", "documented_panics"]) {
         eprintln!("MACHINERY: {}", e);
         return 2;
@@ -87,7 +93,7 @@ pub fn run(tier: Tier) -> i32 {
         "transitions": r.transitions,
         "traces_validated_against_impl": r.transitions,
         "rule": "states = distinct canonical forests; transitions = every operation of the mutating alphabet with every argument tuple of live handles (attached, unattached, other tree, ancestor/descendant, identical), executed on the real Xot under catch_unwind; on Err the forest snapshot (structure with handles, values, to_string of every root, handle liveness) before and after must be equal",
-        "bounds": {"bfs_depth": depth, "starts": st.len()},
+        "bounds": {"bfs_depth": depth, "starts": st.len(), "tiny_starts_one_level_deeper": tiny.len()},
         "levels_completed": r.levels,
     });
     ctx.finish(r.stats, cov, vec!["the oracle does not predict whether a call is refused".into()])
